@@ -72,14 +72,14 @@ REGISTRY = {
             "level": "Requests.tla (two-step Torrent.Request, FIFO loop, Flip before its TorHave, eviction, withdrawals) is model-checked exhaustively "
                      "(2 pieces, 2 consumers, 4 operations) and simulated (3/3/14); behaviours are executed with real goroutines calling Torrent.Request "
                      "against the real loop stepped event by event; at the end: no waiter on an open channel for a verified piece, no waiter woken for an "
-                     "unverified piece it still wants, the priority table equals what the consumers hold, no double close (crash).",
+                     "unverified piece it still wants, the priority table equals what the consumers hold, no double close (crash). The idle priority (waiters that register no priority) and the pruning of idle entries on configuration changes are part of the model; TLC refutes pruning without closing the channel.",
             "note": _LIVE},
     "C17": {"run": p_live.run_c17, "design": "DESIGN.md section 3 C17",
             "technique": "TLC model checking (liveness under fairness) of Lifecycle.tla + every operation x stop point executed on a real running torrent",
             "level": "Lifecycle.tla models the send/await selects of the four call shapes, the loop and its exit path; TLC checks that every call returns "
                      "(weak fairness) and the loop never waits for a vanished caller, for all pairs of shapes plus a deleter; each of the 17 exported operations "
                      "is executed at each realisable stop point on a real torrent with peers and a blocked reader: the call must return, and after Kill the torrent "
-                     "is unlisted, peer connections closed, the reader fails, piece memory and goroutines return to their baselines.",
+                     "is unlisted, peer connections closed, the reader fails, piece memory and goroutines return to their baselines. Lifecycle!KillIsComplete (Kill returns only when the torrent is unlisted and its memory released) is bound by deleting a torrent while a piece is being hashed; peers leaving while the queue is full and the torrent is stopped through its context must not leak.",
             "note": _LIVE},
     "C02": {"run": p_live.run_c02, "design": "DESIGN.md section 3 C02",
             "technique": "TLC model checking of Reader.tla and FuseHandle.tla + simulated seek/read/evict/cancel/kill behaviours executed on a real tor.Reader with a harness-played honest seed + FuseHandle cases on a real FUSE handle",
@@ -87,7 +87,7 @@ REGISTRY = {
                      "real Reader of a running torrent: every byte equals the ground truth at offset+position, nothing beyond the range, EOF exactly at length, a blocked "
                      "read returns once the seed has supplied what was requested (even after evictions, no (0,nil) spin), and fails once cancelled or deleted. "
                      "FuseHandle.tla (Seek+ReadFull under a semaphore on the Reader shared by all reads of one open file) is model-checked, the unserialised variant refuted, "
-                     "and 44 (read A blocked on a late piece, read B) cases run on a real FUSE handle.",
+                     "and 44 (read A blocked on a late piece, read B) cases run on a real FUSE handle. A torrent of 4 GiB + 3 MiB (sparse hashes) is read across and beyond offset 2^32 through the store, a Reader, an HTTP Range request and a FUSE read.",
             "note": _LIVE},
     "C05": {"run": p_peerfsm.run, "design": "DESIGN.md section 3 C05",
             "technique": "TLC model checking of PeerFsm.tla + every (state class x message class) edge and random message sequences executed on peer.handleMessage and tor.handleEvent with crash/hang/allocation monitors",
@@ -110,7 +110,7 @@ REGISTRY = {
             "level": "Requests/cancels: the Sched.tla behaviours (see C09) are applied to the real handlers and every Request/Cancel the peer writes is checked "
                      "against what the remote has advertised/allowed at that moment (index, alignment, exact length incl. the short last block, choke/allowed-fast, "
                      "duplicates, queue depth). Advertisement: Advert.tla enumerated over piece counts 1..17, 24, 71..73, 144, 145, 160 x held sets x fast; the "
-                     "real peer.Run writes it to a pipe and the harness decodes it. PEX: every edge of Pex.tla's graph + random walks on the real pexState.",
+                     "real peer.Run writes it to a pipe and the harness decodes it. PEX: every edge of Pex.tla's graph + random walks on the real pexState. Pex.tla keeps the pending lists in order and caps a message at Cap entries; it is also run with three abstract addresses of 25 peers each against the real cap of 50.",
             "note": "Trusted: TLC, the harness's frame reader. A >4 GiB geometry (fromChunk overflow) is not enumerated by TLC."},
     "C09": {"run": p_sched.run, "design": "DESIGN.md section 3 C09",
             "technique": "TLC exhaustive model checking of Sched.tla + TLC-simulated behaviours applied to the real torrent/peer handlers (stepped mailboxes) + TLC evaluation of Conservation/Availability on the observed bookkeeping",
@@ -125,13 +125,13 @@ REGISTRY = {
                      "retransmission over 6 reply classes) are model-checked exhaustively; every reply sequence is run through the real udpRequestReply "
                      "over a scripted connection, and edge-covering walks of the lifetime graph are executed with tracker.New(...).Announce/GetState "
                      "against a local HTTP server and a local UDP socket with the clock advanced by a hook; stuck-busy, contact gaps and learnt peers "
-                     "are checked model-free, everything else against the specification's state.",
+                     "are checked model-free, everything else against the specification's state. At the level of a running torrent: replies of up to 1500 peers delivered while the event loop is busy (GetKnowns must hold exactly the encoded peers), UDP replies cut inside an entry, and the announce discipline with repeated ticks after an announce (HTTP/UDP tracker x proxy/no proxy).",
             "note": "Trusted: TLC, the scripted servers. IPv6 leg always fails in the sandbox binding (127.0.0.1 only)."},
     "C13": {"run": p_geometry.run, "design": "DESIGN.md section 3 C13", "technique": _B4,
             "level": "Geometry.tla maps an abstract metainfo record to Reject or Accept(geometry); TLC checks the accepted geometries are "
                      "self-consistent and enumerates ~1600 records; each is bencoded and read by tor.ReadTorrent; accepted torrents are compared "
                      "with the specified geometry, their info-hash with SHA-1 of the raw info bytes, and WriteTorrent->ReadTorrent must preserve hash, "
-                     "tracker tiers and web seeds; TLC re-evaluates consistency on every observed geometry.",
+                     "tracker tiers and web seeds; TLC re-evaluates consistency on every observed geometry. Magnet links: 326 abstract links of MCMagnet.tla (forms, xt sequences, tr/ws/as/dn) through tor.ReadMagnet.",
             "note": "Trusted: TLC, the harness bencoder. Record classes, not all byte strings; magnet links not enumerated."},
     "C12": {"run": p_metadata.run, "design": "DESIGN.md section 3 C12",
             "technique": "TLC exhaustive model checking of Metadata.tla + replay of TLC behaviours through tor.handleEvent + TLC trace validation",
